@@ -40,8 +40,18 @@ def cl_step(n, r_max, r1, r2, A0, ratio, symmetric):
         return ok, d
     r = np.abs(S.r)
     func = np.where((r > r1) & (r < r2), A0, 0.0)
-    if S.func.shape != (n,) or not np.array_equal(S.func, func):
-        return False, 'func is not A0 on (r1, r2) and 0 elsewhere'
+    if S.func.shape != (n,):
+        return False, 'func has shape %r' % (S.func.shape,)
+    diff = S.func != func
+    if np.any(diff):
+        # The class decides membership by | |r| - (r1+r2)/2 | < (r2-r1)/2.  When (r1+r2)/2 or (r2-r1)/2 is not exactly
+        # representable, a sample lying exactly on a bound may fall on either side by rounding (a single point of the
+        # discontinuity; the projection is not affected).  Only then, and only there, either value is accepted.
+        from fractions import Fraction as _F
+        exact = (_F(0.5 * (r1 + r2)) == (_F(r1) + _F(r2)) / 2) and (_F(0.5 * (r2 - r1)) == (_F(r2) - _F(r1)) / 2)
+        on_bound = (np.abs(r - r1) <= 4e-16 * max(abs(r1), 1e-300)) | (np.abs(r - r2) <= 4e-16 * abs(r2))
+        if exact or np.any(diff & ~on_bound) or not np.all(np.isin(S.func[diff], [0.0, A0])):
+            return False, 'func is not A0 on (r1, r2) and 0 elsewhere'
     ref = np.array([_los(lambda R: A0 if r1 < R < r2 else 0.0, x, np.sqrt(max(r_max**2 * 4 - x * x, 0)),
                          [np.sqrt(max(r1**2 - x * x, 0)), np.sqrt(max(r2**2 - x * x, 0))]) for x in r])
     scale = abs(A0) * 2 * r2 * np.ones(n)
